@@ -168,7 +168,38 @@ async def F11():
     return (len(calls) != 1, f"callback ran {len(calls)} times")
 
 
-ALL = [F1, F2, F3, F4, F5, F6, F7, F8, F9, F10, F11]
+class Ends:
+    """class-based async iterator that counts how often it is asked after it has ended"""
+
+    def __init__(self, items):
+        self.items, self.ends = list(items), 0
+
+    def __aiter__(self):
+        return self
+
+    async def __anext__(self):
+        if not self.items:
+            self.ends += 1
+            raise StopAsyncIteration
+        return self.items.pop(0)
+
+
+async def F12():
+    out = {}
+    for name, make, items in [
+        ("dropwhile", lambda s: a.dropwhile(lambda x: True, s), [1, 2]),
+        ("islice", lambda s: a.islice(s, 3, None), [1]),
+        ("pairwise", lambda s: a.pairwise(s), []),
+        ("zip strict", lambda s: a.zip(s, strict=True), []),
+    ]:
+        src = Ends(items)
+        async for _ in make(src):
+            pass
+        out[name] = src.ends
+    return (any(v != 1 for v in out.values()), f"end-of-source detections (itertools / zip: 1 each): {out}")
+
+
+ALL = [F1, F2, F3, F4, F5, F6, F7, F8, F9, F10, F11, F12]
 
 
 def main():
